@@ -5583,7 +5583,13 @@ func (a *Agent) handleSleepCommand(peerID identity.AgentID, frame *protocol.Fram
 		return
 	}
 
-	// Process through flooder for deduplication and forwarding
+	a.processSleepCommand(peerID, cmd)
+}
+
+// processSleepCommand acts on a decoded sleep command, whether it arrived in a
+// SLEEP_COMMAND frame or inside a QUEUED_STATE frame.
+func (a *Agent) processSleepCommand(peerID identity.AgentID, cmd *protocol.SleepCommand) {
+	// Process through flooder for verification, deduplication and forwarding
 	if !a.flooder.HandleSleepCommand(peerID, cmd) {
 		return
 	}
@@ -5612,7 +5618,13 @@ func (a *Agent) handleWakeCommand(peerID identity.AgentID, frame *protocol.Frame
 		return
 	}
 
-	// Process through flooder for deduplication and forwarding
+	a.processWakeCommand(peerID, cmd)
+}
+
+// processWakeCommand acts on a decoded wake command, whether it arrived in a
+// WAKE_COMMAND frame or inside a QUEUED_STATE frame.
+func (a *Agent) processWakeCommand(peerID identity.AgentID, cmd *protocol.WakeCommand) {
+	// Process through flooder for verification, deduplication and forwarding
 	if !a.flooder.HandleWakeCommand(peerID, cmd) {
 		return
 	}
@@ -5698,20 +5710,18 @@ func (a *Agent) handleQueuedState(peerID identity.AgentID, frame *protocol.Frame
 		a.flooder.HandleNodeInfoAdvertise(peerID, nodeInfo.OriginAgent, nodeInfo.Sequence, nodeInfo.EncInfo, nodeInfo.SeenBy)
 	}
 
-	// Check for sleep/wake commands in queued state
-	if state.SleepCmd != nil && a.sleepMgr != nil {
-		a.logger.Info("entering sleep mode from queued command")
-		if err := a.sleepMgr.Sleep(); err != nil {
-			a.logger.Error("failed to enter sleep mode from queued command",
-				logging.KeyError, err)
-		}
+	// Sleep/wake commands in queued state take the same path as flooded
+	// SLEEP_COMMAND / WAKE_COMMAND frames: the flooder verifies signature and
+	// timestamp (when a signing key is configured), deduplicates and forwards.
+	if state.SleepCmd != nil {
+		a.logger.Debug("sleep command in queued state",
+			logging.KeyPeerID, peerID.ShortString())
+		a.processSleepCommand(peerID, state.SleepCmd)
 	}
-	if state.WakeCmd != nil && a.sleepMgr != nil {
-		a.logger.Info("waking from queued command")
-		if err := a.sleepMgr.Wake(); err != nil {
-			a.logger.Error("failed to wake from queued command",
-				logging.KeyError, err)
-		}
+	if state.WakeCmd != nil {
+		a.logger.Debug("wake command in queued state",
+			logging.KeyPeerID, peerID.ShortString())
+		a.processWakeCommand(peerID, state.WakeCmd)
 	}
 }
 
